@@ -169,6 +169,10 @@ func ruleC03(c *Ctx) {
 		}
 	}
 	validationDominates(c, "C03-R3", "(*SAMLServiceProvider).ValidateEncodedResponse", "(*SAMLServiceProvider).Validate", 3)
+	// what Validate sees for an assertion is what that assertion's XML says: a decode target shared between
+	// assertions lets encoding/xml keep fields of an earlier assertion for elements a later one lacks
+	c.rule("C03-R4", "the object Validate inspects is decoded per assertion into a fresh target (shared rule with C01-R2 / C04-R5 / C08-R4): absent elements of a later assertion cannot inherit an earlier assertion's values")
+	appendProvenance(c, "C03-R4")
 	// RetrieveAssertionInfo: errors of ValidateEncodedResponse are wrapped in ErrVerification, never dropped
 	ri := c.kernel("(*SAMLServiceProvider).RetrieveAssertionInfo", retrieveInline...)
 	if ri != nil {
